@@ -23,10 +23,18 @@ def run(ctx):
     ctx.touch(f)
     runs = f.calls(RUN)
     ctx.floor('C16.1', 'run sites in the agent loop', len(runs), 2)
-    cnt = [i for i, l in enumerate(f.locals) if l.get('n') == 'tool_call_count']
-    if len(cnt) != 1:
-        raise CheckError('C16.1: local tool_call_count not found')
-    cnt = cnt[0]
+    # the counter is found by what it does, not by its name: the integer local that is compared with the bound constant
+    cands = set()
+    for (bi, on, ts, els) in switches(f):
+        o = f.origin(on)
+        if o[0] == 'rv' and o[1]['k'] == 'bin' and o[1]['op'] in ('Ge', 'Gt', 'Lt', 'Le'):
+            a, b = o[1]['a']
+            kb = op_const(b)
+            if kb is not None and str(kb.get('def', '')).endswith(MAXC) and f.root_local(a) is not None:
+                cands.add(f.root_local(a))
+    if len(cands) != 1:
+        raise CheckError('C16.1: expected one counter compared with %s in the agent loop, found %d' % (MAXC, len(cands)))
+    cnt = next(iter(cands))
     bound_switches = []
     for (bi, on, ts, els) in switches(f):
         o = f.origin(on)
@@ -160,9 +168,9 @@ def run(ctx):
     pushes = []
     for s in f.calls(r'alloc::vec::Vec::push$'):
         r = f.root_local(s.args[0], through_calls=(r'::deref_mut$',))
-        if r is not None and f.lname(r) == 'tool_outputs':
+        if r is not None and (f.lname(r) == 'tool_outputs' or (not any(f.lname(i) == 'tool_outputs' for i in range(len(f.locals))) and re.search(r'Vec<.*ItemParam>$', f.lty(r)) and f.locals[r].get('n') and f.defs(r) and all(f.in_loop(d_[0]) for d_ in f.defs(r)) and f.in_loop(s.bb))):
             pushes.append(s)
-    ctx.ob('C16.4', f, 'single-answer-site', len(pushes) == 1, 'tool_outputs.push occurs at %d site(s)' % len(pushes), line=pushes[0].line if pushes else f.line)
+    ctx.ob('C16.4', f, 'single-answer-site', len(pushes) == 1, 'the per-round answers vector is pushed at %d site(s)' % len(pushes), line=pushes[0].line if pushes else f.line)
     if pushes:
         pu = pushes[0]
         h = f.innermost_loop(pu.bb)
@@ -196,9 +204,14 @@ def run(ctx):
         ctx.ob('C16.4', dr, 'calls-drained', bool(dr.calls(r'core::mem::take$|::drain$|::take$')), 'completed calls are moved out of the collector (mem::take / drain): a call cannot be handed out twice', line=dr.line)
 
     # ---------------------------------------------------------------- C16.5
+    # the history: the request-item vector declared before the request loop (by name when it keeps it,
+    # otherwise the only named Vec<ItemParam> that is defined outside every loop)
     hist = [i for i, l in enumerate(f.locals) if l.get('n') == 'history_items']
     if len(hist) != 1:
-        raise CheckError('C16.5: local history_items not found')
+        hist = [i for i, l in enumerate(f.locals) if l.get('n') and re.search(r'^alloc::vec::Vec<.*ItemParam>$', l['ty'])
+                and f.defs(i) and not any(f.in_loop(d_[0]) for d_ in f.defs(i))]
+    if len(hist) != 1:
+        raise CheckError('C16.5: the history vector (Vec<ItemParam> declared before the request loop) was not identified (%d candidates)' % len(hist))
     hist = hist[0]
     bad = []
     for s in f.sites():
@@ -210,4 +223,4 @@ def run(ctx):
         if r == hist and re.search(r'Extend<T>>::extend$|::clone$', s.callee):
             pass
     ndefs = len(f.defs(hist))
-    ctx.ob('C16.5', f, 'history-append-only', not bad and ndefs <= 3, 'history_items: %d definition(s) (initialisation arms), shrinking calls: %s' % (ndefs, [b.name for b in bad]), line=bad[0].line if bad else f.line)
+    ctx.ob('C16.5', f, 'history-append-only', not bad and ndefs <= 3, 'history vector `%s`: %d definition(s) (initialisation arms), shrinking calls: %s' % (f.lname(hist), ndefs, [b.name for b in bad]), line=bad[0].line if bad else f.line)
